@@ -49,9 +49,11 @@ Lemma nf_check_inv c oi g ty sent :
      nf_rem_ctx_ok c (oi_ctx oi) = true /\
      (forall t, g_rem g = Some t -> t + nfc_interval c <= oi_now oi) /\
      (nfc_interval c <= 0 -> g_ps g = true -> g_bad g = true)) /\
-  (nf_type_eqb ty NfRecovery || nf_type_eqb ty NfAck = true -> forallb (nf_okB c oi g ty) sent = true).
+  (nf_type_eqb ty NfRecovery || nf_type_eqb ty NfAck = true ->
+     forallb (fun u => nf_okB c oi g ty u || nf_okBall c oi g ty u) sent = true).
 Proof.
   unfold nf_check.
+  destruct (oi_tick oi && (cx_paused (oi_ctx oi) && cx_ha (oi_ctx oi))); [discriminate|].
   destruct (forallb (nf_okA c oi ty) sent) eqn:K1; cbn [negb]; [|discriminate].
   destruct (nf_type_eqb ty NfProblem) eqn:Ep.
   - assert (nf_type_eqb ty NfRecovery || nf_type_eqb ty NfAck = false) as Era
@@ -74,8 +76,19 @@ Proof.
         intros _. split; [reflexivity|]. split; [auto|]. split; discriminate.
   - cbn [andb]. intros H. split; [reflexivity|]. split; [discriminate|]. split; [discriminate|].
     intros Era. rewrite Era in H. cbn [andb] in H.
-    destruct (forallb (nf_okB c oi g ty) sent); [reflexivity|discriminate].
+    destruct (forallb (nf_okB c oi g ty) sent) eqn:KB; cbn [negb] in H.
+    + apply forallb_forall. intros u Hu. rewrite forallb_forall in KB. rewrite (KB u Hu). reflexivity.
+    + destruct (forallb (nf_okBall c oi g ty) sent) eqn:KA; [|discriminate].
+      apply forallb_forall. intros u Hu. rewrite forallb_forall in KA. rewrite (KA u Hu). apply orb_true_r.
 Qed.
+
+(* the recorded finding "stale-after-disabled-recovery": u is still listed in notified_problem_users (g_all) although
+   the incident in which u was sent a Problem is over - its Recovery was requested while notifications were disabled
+   globally / for the checkable and Checkable::SendNotifications dropped the request (oi_recdrop) - and u was not
+   sent a Problem since (g_inc) *)
+Definition nf_all_set (ty : nf_type) (g : nf_ghost) : list Z := if nf_type_eqb ty NfRecovery then g_pall g else g_all g.
+Definition nf_stale (ty : nf_type) (u : Z) (g : nf_ghost) : bool :=
+  nf_mem u (nf_all_set ty g) && negb (nf_mem u (nf_inc_set ty g)).
 
 (* the recorded finding "nomore-reset": after the incident's Problem a non-Custom, non-Problem, non-Recovery
    notification passed the notification's filters *)
@@ -87,20 +100,29 @@ Variables (c : nf_cfg) (h : list nf_op).
 Theorem nf_incident g oi ty sent u :
   In (g, oi, NfoDone ty sent) (nf_run_points c h) ->
   ty = NfRecovery \/ ty = NfAck -> In u sent ->
+  nf_stale ty u g = false ->
   exists ur, In ur (cx_users (oi_ctx oi)) /\ nfu_id ur = u /\ nfu_enable ur = true /\
              (nf_mem u (nf_inc_set ty g) = true \/ nf_passes (nfu_types ur) 32 = false).
 Proof.
-  intros HP Hty Hu.
+  intros HP Hty Hu Hst.
   pose proof (nf_points_ok c h nf_init nf_ghost0 _ (nf_init_inv c) HP) as HB. cbn [fst snd] in HB.
   apply nf_check_inv in HB. destruct HB as (_ & _ & _ & K2).
   assert (nf_type_eqb ty NfRecovery || nf_type_eqb ty NfAck = true) as Era by (destruct Hty; subst ty; reflexivity).
   specialize (K2 Era). rewrite forallb_forall in K2. specialize (K2 u Hu).
-  unfold nf_okB in K2. apply existsb_exists in K2. destruct K2 as (ur & I & Q).
-  fold (nf_inc_set ty g) in Q.
-  apply andb_true_iff in Q. destruct Q as [Q Q4]. apply andb_true_iff in Q. destruct Q as [Q _].
-  apply andb_true_iff in Q. destruct Q as [Q1 Q2].
-  exists ur. repeat split; auto; [lia|].
-  apply orb_true_iff in Q4. destruct Q4 as [Q4|Q4]; [left; assumption|right; apply negb_true_iff; assumption].
+  apply orb_true_iff in K2. destruct K2 as [K2|K2].
+  - unfold nf_okB in K2. apply existsb_exists in K2. destruct K2 as (ur & I & Q).
+    fold (nf_inc_set ty g) in Q.
+    apply andb_true_iff in Q. destruct Q as [Q Q4]. apply andb_true_iff in Q. destruct Q as [Q _].
+    apply andb_true_iff in Q. destruct Q as [Q1 Q2].
+    exists ur. repeat split; auto; [lia|].
+    apply orb_true_iff in Q4. destruct Q4 as [Q4|Q4]; [left; assumption|right; apply negb_true_iff; assumption].
+  - unfold nf_okBall in K2. apply existsb_exists in K2. destruct K2 as (ur & I & Q).
+    fold (nf_all_set ty g) in Q.
+    apply andb_true_iff in Q. destruct Q as [Q Q4]. apply andb_true_iff in Q. destruct Q as [Q _].
+    apply andb_true_iff in Q. destruct Q as [Q1 Q2].
+    exists ur. repeat split; auto; [lia|].
+    apply orb_true_iff in Q4. destruct Q4 as [Q4|Q4]; [left|right; apply negb_true_iff; assumption].
+    unfold nf_stale in Hst. rewrite Q4 in Hst. cbn in Hst. apply negb_false_iff in Hst. exact Hst.
 Qed.
 
 Theorem nf_no_duplicate g oi sent u :
@@ -301,6 +323,8 @@ Qed.
 
 (* ---------- witnesses of the recorded findings (the model follows the code) ---------- *)
 Definition nf_w_user : nf_user := {| nfu_id := 1; nfu_enable := true; nfu_types := -1; nfu_states := -1; nfu_per_closed := false |}.
+Definition nf_w_ok_cfg0 : nf_cfg :=
+  {| nfc_svc := true; nfc_interval := 30; nfc_types := -1; nfc_states := -1; nfc_begin := None; nfc_end := None |}.
 Definition nf_w_ctx (raw : Z) (acked : bool) : nf_ctx :=
   {| cx_users := [nf_w_user]; cx_raw := raw; cx_hard := true; cx_lhsc := 2000000000; cx_volatile := false;
      cx_glob_en := true; cx_ck_en := true; cx_downtime := false; cx_acked := acked; cx_reachable := true;
@@ -323,6 +347,74 @@ Lemma nf_stale_fixed :
   nf_oracle nf_w_stale_cfg (nf_model_trace nf_w_stale_cfg nf_init nf_w_stale_hist) = (None, None) /\
   map (fun p => snd p) (nf_run_points nf_w_stale_cfg nf_w_stale_hist) = [NfoDone NfProblem [1]; NfoClr; NfoDone NfAck []].
 Proof. split; vm_compute; reflexivity. Qed.
+
+(* the Recovery of user 1's incident is requested while notifications are disabled for the checkable: the request is
+   dropped by Checkable::SendNotifications; the next problem's notification does not reach user 1 (user period
+   closed); its Acknowledgement does *)
+Definition nf_w_ctx_en (raw : Z) (acked cken uclosed : bool) : nf_ctx :=
+  {| cx_users := [{| nfu_id := 1; nfu_enable := true; nfu_types := -1; nfu_states := -1; nfu_per_closed := uclosed |}];
+     cx_raw := raw; cx_hard := true; cx_lhsc := 2000000000; cx_volatile := false;
+     cx_glob_en := true; cx_ck_en := cken; cx_downtime := false; cx_acked := acked; cx_reachable := true;
+     cx_flapping := false; cx_ck_supp_problem := false; cx_paused := false; cx_ha := false; cx_auth := true;
+     cx_per_closed := false; cx_has_cr := true; cx_cr_ok := raw =? 0; cx_soon := false |}.
+Definition nf_w_drop_hist : list nf_op :=
+  [NfRequest 2000000000 (nf_w_ctx_en 2 false true false) NfProblem false;
+   NfRequest 2000000010 (nf_w_ctx_en 0 false false false) NfRecovery false;
+   NfRequest 2000000020 (nf_w_ctx_en 1 false true true) NfProblem false;
+   NfRequest 2000000030 (nf_w_ctx_en 1 true true false) NfAck false].
+
+Theorem nf_stale_refuted :
+  exists g oi sent u,
+    In (g, oi, NfoDone NfAck sent) (nf_run_points nf_w_ok_cfg0 nf_w_drop_hist) /\ In u sent /\
+    nf_mem u (nf_inc_set NfAck g) = false /\
+    (forall ur, In ur (cx_users (oi_ctx oi)) -> nfu_id ur = u -> nf_passes (nfu_types ur) 32 = true) /\
+    nf_stale NfAck u g = true /\
+    snd (nf_oracle nf_w_ok_cfg0 (nf_model_trace nf_w_ok_cfg0 nf_init nf_w_drop_hist)) = Some (3, 100).
+Proof.
+  eexists. eexists. exists [1]. exists 1. split.
+  - vm_compute. right. right. left. reflexivity.
+  - split; [left; reflexivity|]. split; [vm_compute; reflexivity|]. split.
+    + intros ur [<-|[]] _. vm_compute. reflexivity.
+    + split; vm_compute; reflexivity.
+Qed.
+
+(* the gates of Checkable::SendNotifications and of the timer over the full operation, from any state *)
+Theorem nf_request_gates c now x ty force s :
+  (cx_glob_en x = false \/ cx_ck_en x = false) -> force = false ->
+  nf_request c now x ty force s = (s, [NfEvDrop ty]).
+Proof.
+  intros [H|H] F; subst force; unfold nf_request; rewrite H; cbn [negb orb andb]; [reflexivity|].
+  rewrite orb_true_r. reflexivity.
+Qed.
+
+Theorem nf_request_paused c now x ty force s :
+  (cx_glob_en x = true /\ cx_ck_en x = true \/ force = true) -> cx_auth x = true -> cx_paused x = true ->
+  nf_request c now x ty force s = (s, [NfEvDrop ty]).
+Proof.
+  intros G A P. unfold nf_request. rewrite A, P.
+  assert ((negb (cx_glob_en x) || negb (cx_ck_en x)) && negb force = false) as E.
+  { destruct G as [[G1 G2]|G]; [rewrite G1, G2; reflexivity|rewrite G; apply andb_false_r]. }
+  rewrite E. reflexivity.
+Qed.
+
+Theorem nf_tick_gates c now x s :
+  (cx_glob_en x = false \/ cx_ck_en x = false) \/ (cx_paused x = true /\ cx_ha x = true) ->
+  snd (nf_tick c now x s) = [] /\
+  nf_npu (fst (nf_tick c now x s)) = nf_npu s /\ nf_lns (fst (nf_tick c now x s)) = nf_lns s /\
+  nf_next (fst (nf_tick c now x s)) = nf_next s /\ nf_nomore (fst (nf_tick c now x s)) = nf_nomore s /\
+  nf_sup (fst (nf_tick c now x s)) = nf_sup s.
+Proof.
+  intro H. unfold nf_tick, nf_tick_pre.
+  set (s1 := if cx_paused x && cx_auth x then match nf_stash s with _ :: _ => nf_set_stash s [] | [] => s end else s).
+  assert (nf_npu s1 = nf_npu s /\ nf_lns s1 = nf_lns s /\ nf_next s1 = nf_next s /\ nf_nomore s1 = nf_nomore s /\ nf_sup s1 = nf_sup s) as Q.
+  { unfold s1. destruct (cx_paused x && cx_auth x); [|repeat split]. destruct (nf_stash s); repeat split. }
+  destruct (cx_paused x && cx_ha x) eqn:PH; [cbn [fst snd]; split; [reflexivity|exact Q]|].
+  destruct (negb (cx_glob_en x) || negb (cx_ck_en x)) eqn:En; [cbn [fst snd]; split; [reflexivity|exact Q]|].
+  exfalso. destruct H as [[H|H]|[H1 H2]].
+  - rewrite H in En. discriminate.
+  - rewrite H in En. rewrite orb_true_r in En. discriminate.
+  - rewrite H1, H2 in PH. discriminate.
+Qed.
 
 (* F-C03-b: interval = 0; Problem sent (no_more_notifications = true); a DowntimeStart notification passes the
    filters and clears the flag; the next timer tick sends a reminder *)
